@@ -4,8 +4,8 @@ cd /verif || exit 1
 mkdir -p .cache/runall
 for p in "$@"; do
   s=$(date +%s)
-  timeout 7000 ./check $p > .cache/runall/$p.log 2>&1
+  timeout 7000 ./check $p > .cache/runall/$p${VERIF_SEED:+_seed$VERIF_SEED}.log 2>&1
   rc=$?
   e=$(date +%s)
-  echo "$p rc=$rc wall=$((e-s))s $(grep -E '^(OK|VIOLATION|KNOWN-FINDING)' .cache/runall/$p.log | head -3 | tr '\n' '|')" >> .cache/runall/summary.txt
+  echo "$p rc=$rc wall=$((e-s))s $(grep -E '^(OK|VIOLATION|KNOWN-FINDING)' .cache/runall/$p${VERIF_SEED:+_seed$VERIF_SEED}.log | head -3 | tr '\n' '|')" >> .cache/runall/summary${VERIF_SEED:+_seed$VERIF_SEED}.txt
 done
